@@ -303,6 +303,7 @@ STD_IMAGES = {
     "bytes": ["YWJj", "", "YQ==", "+/+/", "/w==", "A+B/"],  # (both characters where the URL-safe alphabet differs)
     "path": ["a/b", "/tmp/x", "x"],
     "ipv4": ["127.0.0.1", "10.0.0.255"],
+    "ver": ["1.2", "0.10"],  # build.PRELUDE's Ver (two deserializers): only where cfg["std_multi"] asks for it, never modelled
 }
 
 
@@ -331,6 +332,8 @@ def _std_canon(v):
         return ["std", "path", str(v)]
     if cls is ipaddress.IPv4Address:
         return ["std", "ipv4", str(v)]
+    if cls.__name__ == "Ver" and hasattr(v, "a") and hasattr(v, "b"):
+        return ["std", "ver", f"{v.a}.{v.b}"]
     return None
 
 
@@ -581,6 +584,8 @@ class Model:
             if msgs:
                 return None, Err(msgs)
             return canon_json(d), None
+        if k == "std" and t["t"] == "ver":
+            raise Unspecified("type with several deserializers")
         if k == "std":
             # std_types.py conversions from str (float for Decimal): only the pool of known-valid images is modelled
             want = float if t["t"] == "decimal" else str
